@@ -461,6 +461,19 @@ func init() {
 			return []refchain.TxOut{c.g.OutTrue(refchain.MaxMoney), c.g.OutTrue(refchain.MaxMoney)}
 		})
 	})
+	reg("value/many-in-range-outputs-wrap-2^64", "C04", []string{"bad-txns-txouttotal-toolarge"}, func(c *ctx) *refchain.Block {
+		// every output is within [0, MAX_MONEY]; only the running total leaves the range - and, taken modulo 2^64,
+		// comes back below the input value (8784 x MAX_MONEY + one more in-range output)
+		return valueBlock(c, func(in uint64) []refchain.TxOut {
+			n := (1<<64 - 1) / uint64(refchain.MaxMoney)
+			outs := make([]refchain.TxOut, 0, n+1)
+			for i := uint64(0); i < n; i++ {
+				outs = append(outs, c.g.OutTrue(refchain.MaxMoney))
+			}
+			last := -(n * uint64(refchain.MaxMoney)) + in/2 // 2^64 - n*MAX + in/2
+			return append(outs, c.g.OutTrue(last)) // 2^64 - n*MAX is about 3.4e14, far below MAX_MONEY
+		})
+	})
 	reg("value/coinbase-output-above-max", "C04", []string{"bad-txns-vout-toolarge", "bad-txns-vout-negative"}, func(c *ctx) *refchain.Block {
 		v := uint64(refchain.MaxMoney + 1)
 		if c.r.Bool() {
@@ -577,6 +590,53 @@ func init() {
 			return nil
 		}
 		return c.g.Build(chainsim.BlockSpec{Parent: c.tip, CoinbaseScript: prevcb.In[0].ScriptSig, CoinbaseOuts: prevcb.Out, NoCommitment: true})
+	})
+	reg("bip30/duplicate-of-older-coinbase", "C04", []string{"bad-txns-BIP30"}, func(c *ctx) *refchain.Block {
+		if c.height >= c.g.P.BIP34 {
+			return nil
+		}
+		// an ancestor 2..40 blocks back whose coinbase still has a spendable unspent output
+		n := c.tip
+		for d := 0; d < 1+c.r.Intn(40) && n.Parent != nil && n.Parent.Block != nil; d++ {
+			n = n.Parent
+		}
+		if n.Block == nil || n == c.tip {
+			return nil
+		}
+		cb := n.Block.Txs[0]
+		if len(cb.In[0].Witness) > 0 {
+			return nil
+		}
+		id := cb.TxID()
+		live := false
+		for i, o := range cb.Out {
+			if _, ok := c.view[refchain.OutPoint{Hash: id, Idx: uint32(i)}]; ok && !(len(o.Script) > 0 && o.Script[0] == 0x6a) {
+				live = true
+			}
+		}
+		if !live {
+			return nil
+		}
+		return c.g.Build(chainsim.BlockSpec{Parent: c.tip, CoinbaseScript: cb.In[0].ScriptSig, CoinbaseOuts: cb.Out, NoCommitment: true})
+	})
+	reg("valid/bip30-same-coinbase-script-other-output", "C04", valid, func(c *ctx) *refchain.Block {
+		if c.height >= c.g.P.BIP34 || c.tip.Block == nil {
+			return nil
+		}
+		prevcb := c.tip.Block.Txs[0]
+		if len(prevcb.In[0].Witness) > 0 || len(prevcb.Out) == 0 || prevcb.Out[0].Value == 0 {
+			return nil
+		}
+		outs := append([]refchain.TxOut(nil), prevcb.Out...)
+		outs[0].Value-- // another txid: nothing is overwritten
+		var tot uint64
+		for _, o := range outs {
+			tot += o.Value
+		}
+		if tot > refchain.Subsidy(c.height) { // the previous coinbase also claimed fees
+			return nil
+		}
+		return c.g.Build(chainsim.BlockSpec{Parent: c.tip, CoinbaseScript: prevcb.In[0].ScriptSig, CoinbaseOuts: outs, NoCommitment: true})
 	})
 }
 
@@ -999,7 +1059,7 @@ func Child(prop string, seed int64, tier string, cfgName string, stateFile strin
 				}
 			}
 			if !good {
-				run.Inconclusive("generator/reference calibration: probe %s expected %v, reference says %s/%s", pb.name, pb.expect, rr.Stage, rr.Reason)
+				run.Inconclusive("generator/reference calibration: probe %s expected %v, reference says %s/%s (height %d, journal %v)", pb.name, pb.expect, rr.Stage, rr.Reason, height, tailStr(s.Log, 6))
 				return
 			}
 			run.Distinct("probes", pb.name)
@@ -1517,4 +1577,11 @@ func Main(prop string) {
 	os.RemoveAll(tmp) // Finish exits the process: deferred clean-up would not run
 	run.Finish("each delivery = one block (valid, or violating exactly one consensus rule, or the valid neighbour across the boundary) offered to the real chain code and to the reference; after each: tip + full UTXO dump compared; distinct_nontrivial = distinct (probe family, height) pairs",
 		"deliveries", "probe_x_height", 20)
+}
+
+func tailStr(l []string, n int) []string {
+	if len(l) > n {
+		return l[len(l)-n:]
+	}
+	return l
 }
